@@ -52,6 +52,15 @@ PROP = {
     "expected_facts": {
         "c14_start_sync": {"bisyncStartPoint": [], "purgeBisyncRecoveryState": [], "cleanupRecoveredBisyncCommitRecords": []},
         "c14_startpoint_calls": ["sp, seq, ok, err := ro.bisyncStartPoint(ctx, runIds)"],
+        # process-global state reached by the recovery code (dimension audit, item 4): only the slot-tag cache
+        # (sync.Map + sync.Once + a table written inside the Once); first use under concurrency: c14r's first step
+        "c14_pkg_globals": [
+            "pkg/redis/checkpoint/bisync.go:bisyncSlotTagCache:.Load in BisyncSlotTag",
+            "pkg/redis/checkpoint/bisync.go:bisyncSlotTagCache:.Store in BisyncSlotTag",
+            "pkg/redis/checkpoint/bisync.go:bisyncSlotTagCache:.Store in initBisyncSlotTags",
+            "pkg/redis/checkpoint/bisync.go:bisyncSlotTagsBySlot:written in initBisyncSlotTags",
+            "pkg/redis/checkpoint/bisync.go:bisyncSlotTagsOnce:.Do in BisyncSlotTag",
+        ],
     },
     # the flush policy constants (unit threshold, interval) are a tuning parameter: the model is parameterised
     # by them (Model/Frontier.lean FlushPolicy, World.pol), the c14c run passes the code's values to the driver
@@ -79,6 +88,11 @@ PROP = {
             "afterwards without units 1..K-1 must not move the resume point (what a failed purge left is not combined with the new numbering). "
             "OTHER DATABASES (seeded C14-r8-m1 = D21 through another door): every c14s / c14p / loop-harness target is a stand-alone double that also holds application keys in DB 2 and in DB 1 or 3 (INFO keyspace lists them; GetCheckpoint visits them in Go's random map order and leaves the connection there; "
             "the C17 harness keeps the plain namespace); every c14s case repeats the fresh start 6 times on the same untouched state: answers must be identical (restart-moves-resume-point-no-traffic, model-free), besides the prefix / fault / loop monitors which then see about every second start read the wrong database. "
+            "DIMENSION AUDIT (session 5, last round; counters cfg_* / state_* / offset_* / unit_* / global_* in the evidence): options drawn with every value that selects another branch - replay.mode sync / pipeline / parallel, stand-alone / cluster-typed, lanes 1 / 2 / 3 / 4 (Parallelism; units spread over the lanes), "
+            "BatchCmdCount 1 / 4 / 100 (pipeline window, lane buffers, unit buffer), resumeFromBreakPoint true / false (the bidirectional start does not read it; after a full resynchronisation with false the new root lives in memory only and every start is a full synchronisation: counted, see partial); "
+            "target state: ANOTHER complete bidirectional namespace beside ours whose checkpoint name has ours as a proper prefix, ahead of ours (monitor start-touches-another-namespace: a start of ours leaves it intact), other non-empty databases, the same sequence number under two slot tags (c14k), leftovers of both recovery formats at once (frontier + journal in sync mode, latest in pipeline / parallel); "
+            "degenerate inputs FORCED: c14r sequence numbers at the top of int64 (nextSeq++ wraps), a snapshot at the top, offsets 0 / max, equal mtimes of duplicates, mtime 0 / negative, only non-positive numbers, one record, the snapshot's own number again; c14s unit offsets from 0 and from max int64 - 5000, root at offset 0; source transactions of 2 / 9 / 40 commands (beyond BatchCmdCount) beside single-command units; "
+            "process-global state: source fact c14_pkg_globals (only the slot-tag cache: sync.Map + sync.Once + table) and its FIRST USE from 8 goroutines over all 16384 slots as the first step of c14r (slot-tag-first-use-race). "
             "c14k: cluster-typed starts (2-3 slot tags, 16384-tag scan; sync: one latest record per tag): explicit oracle for the selected point, "
             "every write a crash point and a fault point, order-insensitive monitors only. "
             "c14c: real bisyncFrontierCoordinator under testing/synctest virtual time: 1-14 units reported in a random permutation "
@@ -163,6 +177,7 @@ PROP = {
         "sync mode on a cluster is now PROVED for any number of slots (sync_mode_exact_slots over Model/FrontierSyncN.lean: units in any slots, restarts that re-scan, any leftovers not ending beyond the root - root override without purge -, exactly-once in order, start = end and number of the last committed unit; best_latest_is_max_end_offset: the selection is by end offset; sync_start_one_slot bridges to sync_mode_exact) and tied by c14n. Still partial there: a crash is the atomic restart step (no request-level crash points inside a start: a sync start issues no write request), lost-reply / cut connections in sync mode are exercised by the matrix on the standalone configuration only, a source fail-over inside an execution (two run ids) is outside",
         "REGENERATED: RebuildBisyncFrontier, Clone, the latest selection (Props/C14Gen.lean). NOT regenerated (hand model + correspondence only): LoadBisyncCommitRecords' filtering, cleanupRecoveredBisyncCommitRecords / purgeBisyncRecoveryState (they interleave I/O with the computation), bisyncFrontierCoordinator.onCommitted / flush (a struct with a SortedMap and a clock), bisyncStartPoint's branch structure, bisyncFrontierMissFastPath",
         "renumber_spans x same-process restarts (focus item of session 5) is NOT done: the combination theorem is still false in the corner described under assumptions; PSys has one numbering",
+        "OBSERVATION (configuration, outside C14's statement): bisyncEnabled with resumeFromBreakPoint: false never resumes - setCheckpoint keeps the root in memory, bisyncStartPoint reads only the target, so every restart (also inside the process, where the one-directional path uses the in-memory position) is a full resynchronisation; nothing is skipped or applied out of order, the frontier / journal the incremental replay writes meanwhile are purged by the next ResetStartPoint. Counted (cfg_resumeFromBreakPoint_false_new_root_full_sync), not judged",
         "DECISION on the unbounded wait of e03e645: left as an OBSERVATION, no change to /repo. A bound needs a read deadline on conn.RedisConn (the `@TODO readTimeout` at redis_conn.go:29) or closing the connection when ctx ends; the first changes every blocking read of the client (PSYNC / RDB transfer / long commands of other outputs share the type), the second needs NewRedisConn to honour ctx (it ignores it today) - neither is small and safe, and both only trade the hang for the `crash` corner (the transaction still executes later on a stalled target)",
     ],
 }
